@@ -59,6 +59,44 @@ func LeafK(data []byte, off int, name string, maxKind uint8) int {
 	return l
 }
 
+// Output constrains data[off:] to start with an item of one of the shapes a transaction
+// output can have on the wire -- chosen by a symbolic selector: 0 definite array [a, b],
+// 1 definite map {k: v}, 2 indefinite map {_ k: v}, 3 indefinite array [_ a] -- and returns
+// its length.
+func Output(data []byte, off int, name string) int {
+	k := sym.U8(name + "_shape")
+	sym.Assume(k <= 3)
+	l := 3
+	small := func(i int) {
+		sym.Assume(data[i] < 0x18)
+		Tie(data, i, 1)
+	}
+	switch {
+	case k == 0:
+		sym.Assume(off+3 <= len(data))
+		sym.Assume(data[off] == 0x82)
+		small(off + 1)
+		small(off + 2)
+	case k == 1:
+		sym.Assume(off+3 <= len(data))
+		sym.Assume(data[off] == 0xa1)
+		small(off + 1)
+		small(off + 2)
+	case k == 2:
+		l = 4
+		sym.Assume(off+4 <= len(data))
+		sym.Assume(data[off] == 0xbf && data[off+3] == 0xff)
+		small(off + 1)
+		small(off + 2)
+	default:
+		sym.Assume(off+3 <= len(data))
+		sym.Assume(data[off] == 0x9f && data[off+2] == 0xff)
+		small(off + 1)
+	}
+	Tie(data, off, l)
+	return l
+}
+
 // Fixed is LeafK with one fixed kind.
 func Fixed(data []byte, off int, name string, kind uint8) int {
 	k := sym.U8(name + "_form")
